@@ -1,4 +1,5 @@
 import HexProofs.Framework.Maintenance
+import HexProofs.Framework.Gen.ChainMoreDemo
 import HexProps.C01
 /-
 C02 – Readings of closed candles are final: no look-ahead, no repainting.
@@ -200,5 +201,39 @@ example : RawTf ([] ++ ([demo.take 1] ++ [demo.drop 1]).flatten) := ⟨by decide
 example : CoveredTree (F := Int) "STDEV_2" (.stdev 2 "close") := .stdev 2 "close" (by decide) (by decide)
 example : (candlesOf (runIndicator (mkTop (.stdev 2 "close") "STDEV_2" 4) {} [] ([demo.take 1] ++ [demo.drop 1]))).toOption.isSome
     = true := by decide +kernel
+
+open Hex.Chain in
+/-- **C02 for an indicator-valued input, every class**: a Hexital holding a source member (any of the 27 classes over candle
+attributes) and a dependent member (any class with an `input_value`) on its own manager, any timeframe, gap filling off or
+on: the closed candles of an earlier snapshot – with the readings and helper series of BOTH members – are a prefix of every
+later snapshot. -/
+theorem C02_pair_more (tf : Option Int) (htf : ∀ t, tf = some t → 0 < t) (fill : Bool)
+    {nameA : String} {kA : Kind F} (hA : SrcVia nameA kA) (roundA : Nat)
+    {main nameB : String} {kB : Kind F} (hB : DepVia main nameB kB) (roundB : Nat)
+    (hmain : main ∈ (mkTop kA nameA roundA).allNames)
+    (hdis : ∀ x ∈ (mkTop kA nameA roundA).allNames, x ∉ (mkTop kB nameB roundB).allNames)
+    (tfn : Option String) (init : List (Candle F)) (chunks₁ chunks₂ : List (List (Candle F)))
+    (hraw : RawTf (init ++ (chunks₁ ++ chunks₂).flatten)) (H₁ H₂ : Hexital F)
+    (h₁ : pairRun (mkTop kA nameA roundA) (mkTop kB nameB roundB) { tf := tf, fill := fill && tf.isSome } tfn init
+      chunks₁ = .ok H₁)
+    (h₂ : pairRun (mkTop kA nameA roundA) (mkTop kB nameB roundB) { tf := tf, fill := fill && tf.isSome } tfn init
+      (chunks₁ ++ chunks₂) = .ok H₂) :
+    ∃ cs₁ cs₂, H₁.managers = [(defaultKey, { cfg := { tf := tf, fill := fill && tf.isSome }, candles := cs₁ })] ∧
+      H₂.managers = [(defaultKey, { cfg := { tf := tf, fill := fill && tf.isSome }, candles := cs₂ })] ∧
+      closed tf cs₁ <+: cs₂ :=
+  Hex.Chain.C02_pair_more tf htf fill hA roundA hB roundB hmain hdis tfn init chunks₁ chunks₂ hraw H₁ H₂ h₁ h₂
+
+open Hex.Chain in
+/-- **C02 for chains of any length, every class.** -/
+theorem C02_chain_more {ts : List (Ind F)} (h : CoveredChain [] ts) (tf : Option Int)
+    (htf : ∀ t, tf = some t → 0 < t) (fill : Bool) (tfn : Option String) (init : List (Candle F))
+    (chunks₁ chunks₂ : List (List (Candle F))) (hraw : RawTf (init ++ (chunks₁ ++ chunks₂).flatten))
+    (H₁ H₂ : Hexital F)
+    (h₁ : chainRun ts { tf := tf, fill := fill && tf.isSome } tfn init chunks₁ = .ok H₁)
+    (h₂ : chainRun ts { tf := tf, fill := fill && tf.isSome } tfn init (chunks₁ ++ chunks₂) = .ok H₂) :
+    ∃ cs₁ cs₂, H₁.managers = [(defaultKey, { cfg := { tf := tf, fill := fill && tf.isSome }, candles := cs₁ })] ∧
+      H₂.managers = [(defaultKey, { cfg := { tf := tf, fill := fill && tf.isSome }, candles := cs₂ })] ∧
+      closed tf cs₁ <+: cs₂ :=
+  Hex.Chain.C02_chain_more h tf htf fill tfn init chunks₁ chunks₂ hraw H₁ H₂ h₁ h₂
 
 end Hex.C02
